@@ -138,6 +138,10 @@ def make_mesh(refdom_name, kind, rng, reorder=True, renum=True, min_quality=0.0)
         return _adaptive_mesh(refdom_name, rng, reorder, renum, min_quality)
     if kind in ('novalidate', 'unsorted'):
         return _special_simplex_mesh(refdom_name, kind, rng, min_quality)
+    if kind == 'derived':
+        return _derived_mesh(refdom_name, rng, min_quality)
+    if kind == 'init':
+        return _init_mesh(refdom_name, rng)
     base = 'jiggled' if kind == 'curved' else kind
     p, t = base_mesh(refdom_name, base, rng, min_quality=min_quality)
     if renum:
@@ -190,6 +194,89 @@ def _special_simplex_mesh(refdom_name, kind, rng, min_quality):
             how.append(op)
     return m, {'refdom': refdom_name, 'kind': kind, 'base': base, 'p': np.asarray(p).tolist(), 't': np.asarray(t).tolist(),
                'built_by': how, 'mesh_class': type(m).__name__}
+
+
+DERIVING_OPS = ('mirrored', 'morphed', 'smoothed', 'restrict', 'remove_elements', 'copy', 'dict-roundtrip', 'npz-roundtrip',
+                'remove_unused_nodes', 'remove_duplicate_nodes', 'mul-MeshLine-none')
+
+
+def _derived_mesh(refdom_name, rng, min_quality):
+    """a mesh obtained from a default-constructor mesh by the other public mesh-producing operations (API coverage):
+    mirrored, morphed, smoothed, restrict / remove_elements, copy, to_dict/from_dict, save_npz/load_npz,
+    remove_unused_nodes / remove_duplicate_nodes — optionally followed by a refinement"""
+    import os
+    import tempfile
+    import skfem
+    base = ['delaunay', 'structured', 'jiggled'][int(rng.integers(0, 3))]
+    p, t = base_mesh(refdom_name, base, rng, min_quality=min_quality)
+    p, t = renumber(p, t, rng)
+    t = local_reorder(t, refdom_name, rng) if refdom_name in ('RefTri', 'RefTet', 'RefQuad', 'RefHex') else t
+    cls = getattr(skfem, MESH1[refdom_name])
+    d = p.shape[0]
+    ops = []
+    with warnings.catch_warnings():
+        warnings.simplefilter('ignore')
+        m = cls(p, t)
+        for _ in range(int(rng.integers(1, 3))):
+            op = DERIVING_OPS[int(rng.integers(0, len(DERIVING_OPS) - 1))]
+            nt = m.t.shape[1]
+            if op == 'mirrored' and nt <= 40:
+                nrm = tuple(1.0 if k == 0 else 0.0 for k in range(d))
+                m = m.mirrored(nrm, tuple(float(v) for v in (m.p.min(axis=1) - 0.25)))
+            elif op == 'morphed':
+                m = m.morphed(lambda q: q[0] + 0.05 * q[-1] ** 2, None)
+            elif op == 'smoothed' and refdom_name in ('RefTri', 'RefTet'):
+                m = m.smoothed()
+            elif op in ('restrict', 'remove_elements') and nt >= 6:
+                drop = np.sort(rng.choice(nt, size=max(1, nt // 5), replace=False))
+                keep = np.setdiff1d(np.arange(nt), drop)
+                m = m.restrict(keep) if op == 'restrict' else m.remove_elements(drop)
+            elif op == 'copy':
+                m = m.copy()
+            elif op == 'dict-roundtrip':
+                m = type(m).from_dict(m.to_dict())
+            elif op == 'npz-roundtrip':
+                fn = os.path.join(tempfile.mkdtemp(prefix='c03_'), 'm.npz')
+                m.save_npz(fn)
+                m = type(m).load_npz(fn)
+                os.remove(fn)
+            elif op == 'remove_unused_nodes':
+                m = m.remove_unused_nodes()
+            elif op == 'remove_duplicate_nodes':
+                m = m.remove_duplicate_nodes()
+            else:
+                continue
+            ops.append(op)
+        if rng.random() < 0.3 and m.t.shape[1] <= 30:
+            m = m.refined()
+            ops.append('refined()')
+    return m, {'refdom': refdom_name, 'kind': 'derived', 'base': base, 'p': np.asarray(p).tolist(), 't': np.asarray(t).tolist(),
+               'built_by': ops, 'mesh_class': type(m).__name__}
+
+
+INIT_CONSTRUCTORS = {
+    'RefTri': [('MeshTri', 'init_symmetric', ()), ('MeshTri', 'init_sqsymmetric', ()), ('MeshTri', 'init_lshaped', ()),
+               ('MeshTri', 'init_circle', (1,)), ('MeshTri', 'init_refdom', ()), ('MeshTri2', 'init_circle', (1,))],
+    'RefTet': [('MeshTet', 'init_ball', (1,)), ('MeshTet', 'init_refdom', ()), ('MeshTet2', 'init_ball', (1,))],
+    'RefQuad': [('MeshQuad', 'init_refdom', ())],
+    'RefHex': [('MeshHex', 'init_refdom', ())],
+}
+
+
+def _init_mesh(refdom_name, rng):
+    """the library's named constructors (API coverage), refined once so that interior facets exist"""
+    import skfem
+    lst = INIT_CONSTRUCTORS[refdom_name]
+    cname, meth, args = lst[int(rng.integers(0, len(lst)))]
+    with warnings.catch_warnings():
+        warnings.simplefilter('ignore')
+        m = getattr(getattr(skfem, cname), meth)(*args)
+        how = [f'{cname}.{meth}{args}']
+        if np.count_nonzero(m.f2t[1] != -1) < 3 or rng.random() < 0.3:
+            m = m.refined()
+            how.append('refined()')
+    return m, {'refdom': refdom_name, 'kind': 'init', 'p': m.p.tolist(), 't': m.t.tolist(), 'built_by': how,
+               'mesh_class': type(m).__name__}
 
 
 LAST_PARENT = {}      # the parent mesh of the last 'adaptive' mesh and the checksum of its arrays before it was derived from
@@ -299,10 +386,10 @@ def claims():
     'midpoint' / 'morley' / 'plate15' (non-conforming: defining functionals only)"""
     import skfem.element as E
     C = {}
-    allk = ('delaunay', 'structured', 'jiggled', 'curved', 'adaptive', 'novalidate')
-    gk = ('delaunay', 'structured', 'jiggled', 'adaptive', 'novalidate')
+    allk = ('delaunay', 'structured', 'jiggled', 'curved', 'adaptive', 'novalidate', 'derived', 'init')
+    gk = ('delaunay', 'structured', 'jiggled', 'adaptive', 'novalidate', 'derived')
     anyorder = allk + ('unsorted',)      # at most one DOF per facet / edge: conforming for ANY vertex order
-    quadk = ('structured', 'jiggled', 'curved')
+    quadk = ('structured', 'jiggled', 'curved', 'derived')
 
     def add(label, f, kind, kinds, **opt):
         C[label] = (f, kind, kinds, opt)
